@@ -750,7 +750,9 @@ Definition step (w : world) (a : action) : world :=
   | EarlyStop t v =>
       match find_trial t (w_trials w) with
       | Some tr =>
-          if c_es (w_cfg w) && t_is tr TCreated && negb (t_completed tr) && negb (t_deleting tr) then
+          (* the stop comes from the metrics collector inside the trial's run object: the run object exists *)
+          if c_es (w_cfg w) && t_is tr TCreated && negb (t_completed tr) && negb (t_deleting tr) &&
+             match find_job t (w_jobs w) with Some _ => true | None => false end then
             let w1 := match v, db_get t (w_db w) with Some z, None => set_db w (w_db w ++ [(t, Some z)]) | _, _ => w end in
             set_trials w1 (upd_trial t (fun x => {| t_name := t_name x; t_conds := t_conds x ++ [{| ctype := TEarlyStopped; cstat := CTrue; creason := REarlyStopped |}];
                                                     t_obs := t_obs x; t_ctime := t_ctime x; t_fin := t_fin x; t_deleting := t_deleting x;
